@@ -238,7 +238,10 @@ func scenarioC20(rc *RunCtx) *Violation {
 	o.Metafile = true
 	o.Write = g.chance(50)
 	o.Outdir = 0
-	o.Inject = false
+	o.Inject = g.chance(30)
+	if o.Inject {
+		p.Extra["src/inject.js"] = "export let injected = 'INJ';\nconsole.log('inject');\n"
+	}
 	o.Sourcemap = 0
 	o.MinifyWS, o.MinifyIDs, o.MinifySyn = false, false, false
 	d := newDisk(g)
